@@ -405,48 +405,106 @@ const SW_DC: u8 = 3; // depth of the coarse cells
 const SW_DF: u8 = 10; // depth of the fine cells
 const SW_C: u64 = 7 * 64 + 37; // a generic depth-3 cell (base cell 7)
 
-fn sw_first(c: u64) -> u64 {
-  c << (2 * (SW_DF - SW_DC) as u32)
+/// The operand pairs of size n (fine cells of depth SW_DF inside coarse cells of depth SW_DC).
+fn sweep_pairs(n: u64, partial: bool) -> Vec<(&'static str, Bm, Bm)> {
+  sweep_pairs_at(n, partial, SW_DC, SW_DF, SW_C)
 }
 
-/// The operand pairs of size n.
-fn sweep_pairs(n: u64, partial: bool) -> Vec<(&'static str, Bm, Bm)> {
+/// The operand pairs of size n: fine cells of depth `df` inside coarse cells of depth `dc` around
+/// the coarse cell `c` (4 n <= 4^(df - dc): the interleaved runs stay inside the coarse cell).
+fn sweep_pairs_at(n: u64, partial: bool, dc: u8, df: u8, c0: u64) -> Vec<(&'static str, Bm, Bm)> {
+  assert!(4 * n <= 1u64 << (2 * (df - dc) as u32));
+  let sw_first = |c: u64| -> u64 { c << (2 * (df - dc) as u32) };
   let full = |k: u64| !partial || k % 3 != 1;
   let cf = !partial; // flag of the coarse cells in the flagged variant
-  let fine = |c: u64, n: u64, stride: u64, off: u64| -> Vec<Entry> { (0..n).map(|k| (SW_DF, sw_first(c) + stride * k + off, full(k))).collect() };
+  let fine = |c: u64, n: u64, stride: u64, off: u64| -> Vec<Entry> { (0..n).map(|k| (df, sw_first(c) + stride * k + off, full(k))).collect() };
   let mut v = vec![];
   // F1: one coarse cell against n fine cells inside it + one fine cell after it
-  let mut b = fine(SW_C, n, 3, 1);
-  b.push((SW_DF, sw_first(SW_C + 1) + 5, true));
-  v.push(("contained-run", Bm::new(SW_DC, vec![(SW_DC, SW_C, true)]), Bm::new(SW_DF, b.clone())));
+  let mut b = fine(c0, n, 3, 1);
+  b.push((df, sw_first(c0 + 1) + 5, true));
+  v.push(("contained-run", Bm::new(dc, vec![(dc, c0, true)]), Bm::new(df, b.clone())));
   if partial {
-    v.push(("contained-run-partial-coarse", Bm::new(SW_DC, vec![(SW_DC, SW_C, false)]), Bm::new(SW_DF, b.clone())));
+    v.push(("contained-run-partial-coarse", Bm::new(dc, vec![(dc, c0, false)]), Bm::new(df, b.clone())));
   }
   // F2: same depth_max, cells before and after on both sides
-  let mut a2 = vec![(SW_DF, sw_first(SW_C - 1) + 2, true), (SW_DC, SW_C, cf || true), (SW_DF, sw_first(SW_C + 2) + 9, full(1))];
-  a2.sort_by_key(|e| e.1 << (2 * (SW_DF - e.0) as u32));
-  let mut b2 = vec![(SW_DF, sw_first(SW_C - 1) + 7, true)];
-  b2.extend(fine(SW_C, n, 3, 1));
-  b2.push((SW_DF, sw_first(SW_C + 1) + 5, true));
-  b2.push((SW_DF, sw_first(SW_C + 3) + 1, true));
-  v.push(("contained-run-same-depth-max", Bm::new(SW_DF, a2), Bm::new(SW_DF, b2)));
+  let mut a2 = vec![(df, sw_first(c0 - 1) + 2, true), (dc, c0, cf || true), (df, sw_first(c0 + 2) + 9, full(1))];
+  a2.sort_by_key(|e| e.1 << (2 * (df - e.0) as u32));
+  let mut b2 = vec![(df, sw_first(c0 - 1) + 7, true)];
+  b2.extend(fine(c0, n, 3, 1));
+  b2.push((df, sw_first(c0 + 1) + 5, true));
+  b2.push((df, sw_first(c0 + 3) + 1, true));
+  v.push(("contained-run-same-depth-max", Bm::new(df, a2), Bm::new(df, b2)));
   // F3: two interleaved runs of the same level
-  let mut b3 = fine(SW_C, n, 4, 2);
-  b3.push((SW_DF, sw_first(SW_C + 1) + 5, true));
-  v.push(("interleaved-runs", Bm::new(SW_DF, fine(SW_C, n, 4, 0)), Bm::new(SW_DF, b3)));
+  let mut b3 = fine(c0, n, 4, 2);
+  b3.push((df, sw_first(c0 + 1) + 5, true));
+  v.push(("interleaved-runs", Bm::new(df, fine(c0, n, 4, 0)), Bm::new(df, b3)));
   // F4: two coarse cells, n fine cells in the first, 7 in the second, one after
-  let mut b4 = fine(SW_C, n, 3, 1);
-  b4.extend(fine(SW_C + 1, 7, 5, 2));
-  b4.push((SW_DF, sw_first(SW_C + 2), true));
-  v.push(("two-coarse-cells", Bm::new(SW_DC, vec![(SW_DC, SW_C, true), (SW_DC, SW_C + 1, cf)]), Bm::new(SW_DF, b4)));
+  let mut b4 = fine(c0, n, 3, 1);
+  b4.extend(fine(c0 + 1, 7, 5, 2));
+  b4.push((df, sw_first(c0 + 2), true));
+  v.push(("two-coarse-cells", Bm::new(dc, vec![(dc, c0, true), (dc, c0 + 1, cf)]), Bm::new(df, b4)));
   // F5: identical runs and runs shifted by one cell (equal / adjacent entries)
-  v.push(("identical-runs", Bm::new(SW_DF, fine(SW_C, n, 3, 1)), Bm::new(SW_DF, fine(SW_C, n, 3, 1))));
-  v.push(("adjacent-runs", Bm::new(SW_DF, fine(SW_C, n, 3, 1)), Bm::new(SW_DF, fine(SW_C, n, 3, 2))));
+  v.push(("identical-runs", Bm::new(df, fine(c0, n, 3, 1)), Bm::new(df, fine(c0, n, 3, 1))));
+  v.push(("adjacent-runs", Bm::new(df, fine(c0, n, 3, 1)), Bm::new(df, fine(c0, n, 3, 2))));
   // F6: a shallower ancestor (depth 1) against the run, different depth_max
-  let mut b6 = fine(SW_C, n, 3, 1);
-  b6.push((SW_DC, SW_C + 64, true));
-  v.push(("ancestor-depth-1", Bm::new(1, vec![(1, SW_C >> 4, true)]), Bm::new(SW_DF, b6)));
+  let mut b6 = fine(c0, n, 3, 1);
+  b6.push((dc, c0 + 64, true));
+  v.push(("ancestor-depth-1", Bm::new(1, vec![(1, c0 >> (2 * (dc - 1) as u32), true)]), Bm::new(df, b6)));
+  // F7: the operand of n cells starts first (a cell before the coarse cell), the other operand
+  // starts later with a coarse cell that contains the whole run / with a cell of intermediate
+  // depth in the middle of the run / with one fine cell of the run (a skip of the "useless"
+  // beginning of the long operand must not lose the cells inside the first cell of the other one)
+  let mut b7 = vec![(df, sw_first(c0 - 1) + 7, true)];
+  b7.extend(fine(c0, n, 3, 1));
+  v.push(("long-starts-first-coarse-later", Bm::new(dc, vec![(dc, c0, cf)]), Bm::new(df, b7.clone())));
+  let dm = dc + (df - dc) / 2; // intermediate depth
+  let mid_fine = sw_first(c0) + 3 * (n / 2) + 1; // the fine cell number n/2 of the run
+  let mid_cell = mid_fine >> (2 * (df - dm) as u32);
+  v.push(("long-starts-first-mid-cell-later", Bm::new(dm, vec![(dm, mid_cell, true)]), Bm::new(df, b7.clone())));
+  let mut a7 = vec![(df, mid_fine, true), (df, sw_first(c0 + 1) + 2, full(2))];
+  a7.dedup();
+  v.push(("long-starts-first-fine-cell-later", Bm::new(df, a7), Bm::new(df, b7)));
   v
+}
+
+/// Replay form of a long sweep operand pair: the generator parameters instead of 10^6 entries.
+fn compact_case(v: &mut Viol, gen: &Option<Value>, name: &str, swapped: bool) {
+  if let Some(g) = gen {
+    let mut g = g.clone();
+    g["shape"] = json!(name);
+    g["swapped"] = json!(swapped);
+    v.case = json!({"op": v.case["op"], "generator": g});
+  }
+}
+
+fn sweep_one(mode: Mode, stratum: &str, pairs: Vec<(&'static str, Bm, Bm)>, n: u64, gen: Option<Value>, part: &mut Part) {
+  for (name, a, b) in pairs {
+    let (ai, bi) = (a.to_impl(), b.to_impl());
+    let (am, bm) = match (a.to_map(), b.to_map()) {
+      (Ok(x), Ok(y)) => (x, y),
+      (x, y) => panic!("oracle: malformed sweep operand {} n={} {:?} {:?}", name, n, x.err(), y.err()),
+    };
+    let key = format!("{}:{}", stratum, name);
+    part.stratum(&key, 2, 0);
+    for (swapped, (x, xi, xm, y, yi, ym)) in [(&a, &ai, &am, &b, &bi, &bm), (&b, &bi, &bm, &a, &ai, &am)].into_iter().enumerate() {
+      for op in BIN_OPS {
+        part.stratum(&key, 0, 1);
+        let (out, v) = transition(mode, op, x, xi, xm, Some((y, yi, ym)), part);
+        if let Some(o) = out {
+          part.outcome(hash64(&[o.entries.len() as u64, o.depth_max as u64, o.entries.first().map(|e| e.1).unwrap_or(0), o.entries.last().map(|e| e.1).unwrap_or(0)]));
+        }
+        if let Some(mut v) = v {
+          compact_case(&mut v, &gen, name, swapped == 1);
+          part.viol(v);
+        }
+      }
+      part.stratum(&key, 0, 1);
+      if let (_, Some(mut v)) = transition(mode, Op::Not, x, xi, xm, None, part) {
+        compact_case(&mut v, &gen, name, swapped == 1);
+        part.viol(v);
+      }
+    }
+  }
 }
 
 pub fn size_sweep(ctx: &Ctx, mode: Mode, total: &mut Part) -> Value {
@@ -461,35 +519,29 @@ pub fn size_sweep(ctx: &Ctx, mode: Mode, total: &mut Part) -> Value {
       return part;
     }
     for n in (j as u64 * chunk + 1)..=((j as u64 + 1) * chunk).min(nmax) {
-      for (name, a, b) in sweep_pairs(n, partial) {
-        let (ai, bi) = (a.to_impl(), b.to_impl());
-        let (am, bm) = match (a.to_map(), b.to_map()) {
-          (Ok(x), Ok(y)) => (x, y),
-          (x, y) => panic!("oracle: malformed sweep operand {} n={} {:?} {:?}", name, n, x.err(), y.err()),
-        };
-        part.stratum(&format!("size-sweep:{}", name), 2, 0);
-        for (x, xi, xm, y, yi, ym) in [(&a, &ai, &am, &b, &bi, &bm), (&b, &bi, &bm, &a, &ai, &am)] {
-          for op in BIN_OPS {
-            part.stratum(&format!("size-sweep:{}", name), 0, 1);
-            let (out, v) = transition(mode, op, x, xi, xm, Some((y, yi, ym)), &mut part);
-            if let Some(o) = out {
-              part.outcome(hash64(&[o.entries.len() as u64, o.depth_max as u64, o.entries.first().map(|e| e.1).unwrap_or(0), o.entries.last().map(|e| e.1).unwrap_or(0)]));
-            }
-            if let Some(v) = v {
-              part.viol(v);
-            }
-          }
-          part.stratum(&format!("size-sweep:{}", name), 0, 1);
-          if let (_, Some(v)) = transition(mode, Op::Not, x, xi, xm, None, &mut part) {
-            part.viol(v);
-          }
-        }
-      }
+      sweep_one(mode, "size-sweep", sweep_pairs(n, partial), n, None, &mut part);
     }
     part
   });
   total.merge(part);
-  json!({"search": "size-sweep", "operand_sizes": format!("1..={}", nmax), "shapes": sweep_pairs(1, partial).iter().map(|s| s.0).collect::<Vec<_>>(),
+  // long operands: the sizes 2^k - 1, 2^k, 2^k + 1 (a switch to another algorithm -- binary search,
+  // galloping, chunking -- for "large" operands is placed at a power of two)
+  let kmax: u32 = if ctx.quick() { 15 } else { 20 };
+  let sizes: Vec<u64> = (10..=kmax).flat_map(|k| [(1u64 << k) - 1, 1u64 << k, (1u64 << k) + 1]).collect();
+  let part = par_jobs(sizes.len(), |j| {
+    let mut part = Part::new();
+    if ctx.over_budget() {
+      part.caps.push(format!("wall budget {}s reached in the long-operand sweep", ctx.budget_s));
+      return part;
+    }
+    // fine cells of depth 14 inside the depth-2 cell 7 * 16 + 9
+    let gen = json!({"n": sizes[j], "partial": partial, "dc": 2, "df": 14, "c0": 7 * 16 + 9});
+    sweep_one(mode, "long-operands", sweep_pairs_at(sizes[j], partial, 2, 14, 7 * 16 + 9), sizes[j], Some(gen), &mut part);
+    part
+  });
+  total.merge(part);
+  json!({"search": "size-sweep", "operand_sizes": format!("1..={}", nmax), "long_operand_sizes": format!("2^k - 1, 2^k, 2^k + 1 for k = 10..={}", kmax),
+    "shapes": sweep_pairs(1, partial).iter().map(|s| s.0).collect::<Vec<_>>(),
     "transitions_per_pair": "and, or, xor in both operand orders, not of each operand"})
 }
 
@@ -826,8 +878,14 @@ pub fn replay(case: &Value, mode: Mode) -> Option<Viol> {
     "or" => Op::Or,
     _ => Op::Xor,
   };
-  let a = Bm::from_json(&case["left"]);
-  let b = if case["right"].is_null() { None } else { Some(Bm::from_json(&case["right"])) };
+  let (a, b) = if let Some(g) = case.get("generator") {
+    let pairs = sweep_pairs_at(g["n"].as_u64().unwrap(), g["partial"].as_bool().unwrap(), g["dc"].as_u64().unwrap() as u8, g["df"].as_u64().unwrap() as u8, g["c0"].as_u64().unwrap());
+    let (_, a, b) = pairs.into_iter().find(|p| Some(p.0) == g["shape"].as_str())?;
+    let (a, b) = if g["swapped"].as_bool().unwrap_or(false) { (b, a) } else { (a, b) };
+    (a, if op == Op::Not { None } else { Some(b) })
+  } else {
+    (Bm::from_json(&case["left"]), if case["right"].is_null() { None } else { Some(Bm::from_json(&case["right"])) })
+  };
   let ai = a.to_impl();
   let am = a.to_map().ok()?;
   let bi = b.as_ref().map(|x| x.to_impl());
